@@ -5,6 +5,7 @@ Menu_quick == {C("Zero", 0), C("Zero", 1), C("NN", 0), C("NN", 1), C("NN", 2), C
                C("Exp", 3), C("PSD", 1), C("PSD", 3)}
 Menu_full  == Menu_quick \cup {C("Zero", 2), C("NN", 3), C("SOC", 3), C("Pow", 3), C("GenPow", 3)}
 B_two   == {"fin", "huge"}
+B_neg   == {"fin", "huge", "neg"}          \* "neg": at or below minus the bound - a genuine constraint, never dropped
 B_three == {"fin", "big", "huge"}
 Bnd_none == {}
 Bnd_one == {"1e10"}
